@@ -251,6 +251,21 @@ func (w *World) genKind(t *rapid.T, kind string, p *Profile) Op {
 		op.Node = pick(t, "node", s.LiveNodes())
 	case OpRelease:
 		keys := append(s.KeysIn(KBound), s.KeysIn(KOutstanding)...)
+		if Excluded("soft-timeout-empty-app") {
+			// same finding: do not take the last real ask away from an application that is resuming
+			kept := keys[:0]
+			for _, k := range keys {
+				if a := w.Last.Apps[s.Keys[k].App]; a != nil && a.State == "Resuming" && !s.Keys[k].Spec.Placeholder {
+					w.Excl("soft-timeout-empty-app")
+				} else {
+					kept = append(kept, k)
+				}
+			}
+			keys = kept
+			if len(keys) == 0 {
+				return Op{Kind: OpSchedule}
+			}
+		}
 		if Excluded("cancel-real-ask-mid-swap") {
 			// known finding: cancelling a real ask whose placeholder swap is in flight resurrects the ask
 			kept := keys[:0]
@@ -297,8 +312,16 @@ func (w *World) genKind(t *rapid.T, kind string, p *Profile) Op {
 		var ids []string
 		for id, a := range w.Last.Apps {
 			if a.PhTimerArmed {
+				if Excluded("soft-timeout-empty-app") && w.softWithoutRealAsk(id) {
+					// known finding: a Soft application that resumes with nothing left to run is stuck in Accepted
+					w.Excl("soft-timeout-empty-app")
+					continue
+				}
 				ids = append(ids, id)
 			}
+		}
+		if len(ids) == 0 {
+			return Op{Kind: OpSchedule}
 		}
 		sort.Strings(ids)
 		op.App = pick(t, "app", ids)
@@ -521,4 +544,15 @@ func (w *World) realAskMidSwap(key string) bool {
 	}
 	_, bound := app.Allocs[key]
 	return !bound
+}
+
+// softWithoutRealAsk: a gang application that is not Hard style and would take the "resume" path of the
+// placeholder timeout (it has not started running): that path removes every ask of the application.
+func (w *World) softWithoutRealAsk(id string) bool {
+	app := w.Last.Apps[id]
+	sa := w.Shim.Apps[id]
+	if app == nil || sa == nil || sa.Spec.Style == "Hard" {
+		return false
+	}
+	return app.State == "New" || app.State == "Accepted"
 }
